@@ -34,7 +34,17 @@ def mutate(text, rng):
         return text, "none"
     i = rng.randrange(len(toks))
     a, b, t = toks[i]
-    kind = rng.choice(["delete", "duplicate", "swap", "perturb"])
+    kind = rng.choice(["delete", "duplicate", "swap", "perturb", "redefine"])
+    if kind == "redefine":
+        # give one definition the name of another one (earlier or later, same or different kind of object)
+        defs = [k for k in range(1, len(toks)) if toks[k - 1][2] in ("sequence", "strand", "structure") or
+                (k >= 2 and toks[k - 1][2] == "]" and re.match(r"[A-Za-z_]", toks[k][2]))]
+        defs = [k for k in defs if re.match(r"[A-Za-z_]", toks[k][2])]
+        if len(defs) >= 2:
+            k1, k2 = rng.sample(defs, 2)
+            a, b, t = toks[k1]
+            return text[:a] + toks[k2][2] + text[b:], "redefine %s->%s" % (t, toks[k2][2])
+        kind = "perturb"
     if kind == "delete":
         return text[:a] + text[b:], "delete " + t
     if kind == "duplicate":
@@ -66,6 +76,20 @@ def mutate(text, rng):
     return text[:a] + new + text[b:], "perturb %s->%s" % (t, new)
 
 
+def all_redefinitions(text):
+    """every way of giving one definition the name of another definition of the same file"""
+    toks = [(m.start(), m.end(), m.group(0)) for m in TOKEN.finditer(text)]
+    defs = [k for k in range(1, len(toks)) if (toks[k - 1][2] in ("sequence", "strand", "structure") or toks[k - 1][2] == "]")
+            and re.match(r"[A-Za-z_]", toks[k][2])]
+    out = []
+    for k1 in defs:
+        for k2 in defs:
+            if k1 != k2 and toks[k1][2] != toks[k2][2]:
+                a, b, t = toks[k1]
+                out.append((text[:a] + toks[k2][2] + text[b:], "redefine %s->%s" % (t, toks[k2][2])))
+    return out
+
+
 def compile_dir(d, entry, args, includes):
     from peppercompiler import compiler as pc
     import peppercompiler.utils as utils
@@ -93,7 +117,7 @@ def run(st, tier, seed):
                 "unmutated program is checked too; non-trivial = a mutant the compiler accepts; distinct by mutated text")
     rng = core.rng_for(seed, "c09")
     n_prog = 25 if tier == "quick" else 400
-    n_mut = 30 if tier == "quick" else 120
+    n_mut = 40 if tier == "quick" else 150
     examples = json.load(open(os.path.join(core.CORPUS, "examples.json")))
     n_ex = 12 if tier == "quick" else len(examples)
     bundles = []
@@ -119,9 +143,17 @@ def run(st, tier, seed):
             inp0 = {"files": b.texts, "entry": b.entry, "includes": b.includes}
             if base is not None:
                 judge(base, inp0, "unmutated program")
+            muts = []
             for k in range(n_mut):
                 rel = rng.choice(sorted(b.texts))
                 mt, what = mutate(b.texts[rel], rng)
+                muts.append((rel, mt, what))
+            # exhaustive family: every redefinition of one name by another (capped)
+            rel0 = rng.choice(sorted(x for x in b.texts if x.endswith(".comp")) or sorted(b.texts))
+            redefs = all_redefinitions(b.texts[rel0])
+            rng.shuffle(redefs)
+            muts += [(rel0, mt, what) for mt, what in redefs[:60 if tier == "quick" else 400]]
+            for rel, mt, what in muts:
                 if mt == b.texts[rel]:
                     continue
                 with open(os.path.join(d, rel), "w") as f:
@@ -138,6 +170,21 @@ def run(st, tier, seed):
                     judge(out, inp, what)
                     if len(res.samples) < 2:
                         res.sample({"mutation": what, "file": rel, "accepted": True})
+    # directed: a user name of the reserved form _Anon<k> that clashes with the k-th anonymous region of the process
+    # (defect F16: the strand silently referred to the user's sequence); must be rejected or well formed
+    for k in range(6 if tier == "quick" else 40):
+        with core.scratch("pepper_c09r_") as d:
+            n = impl.anon_counter() + rng.randint(0, 1)
+            L1, L2 = rng.randint(1, 6), rng.randint(1, 6)
+            text = ('declare component T: ->\nsequence _Anon%d = "%dN"\nsequence s = "%dN" "2N"\nstrand X = "%dN" s\n'
+                    'structure S = X : %d.\n' % (n, L1, L2, L2, 2 * L2 + 2))
+            with open(os.path.join(d, "t.comp"), "w") as f:
+                f.write(text)
+            out = compile_dir(d, "t", [], None)
+            res.evaluations += 1
+            res.count("directed:reserved-name-clash")
+            if out is not None:
+                judge(out, {"files": {"t.comp": text}, "entry": "t", "includes": []}, "user name of the reserved form _Anon<k>")
     # example programs
     ex = rng.sample(examples, n_ex)
     for relp, args in ex:
